@@ -114,6 +114,7 @@ pub fn decode(bytes: &[u8]) -> Case {
     names.empty_values = true;
     let cfg = ConvCfg {
         usage_fallback: true,
+        collect: true,
         ..ConvCfg::default()
     };
     let level = gen_conv_level(&mut u, &mut names, &cfg, 1);
